@@ -78,7 +78,12 @@ def check(ctx):
     ac = ctx.fn("acting", "Act.clone")
     A = FuncView(ctx, ac)
     raises = [n for n in A.cfg.nodes if n.kind == "raise"]
-    dc = A.need(A.call_nodes("copy.deepcopy"), "copy.deepcopy(self)")
+    dc = [n for n, c in A.calls(("copy.deepcopy", "deepcopy")) if c.args and dotted(c.args[0]) == "self"]
+    ctx.check(bool(dc), "T3-clone", ac, "Act.clone deep-copies the act (copy.deepcopy(self))",
+              "a shallow copy shares the nested acts in parms (the needs of a transition) between the original and every clone: the "
+              "first clone to resolve binds them to its own relative shares and every later clone tests the first clone's state")
+    if not dc:
+        dc = A.call_nodes(("copy.copy", "copy.deepcopy")) or [n for n in A.cfg.nodes if n.kind == "return"]
     tests = A.tests(lambda t: True)
     ctx.check(len(raises) == 3 and all(any(A.dominated_by_edge(dc, t, "F") for t in tests if A.dominated_by_edge([r], t, "T")) for r in raises),
               "T3-clone", ac, "Act.clone: three resolved-link guards precede the deep copy", "a resolved act would be deep-copied together with the objects it links")
